@@ -305,7 +305,9 @@ def judge(schema, res):
     from graphql import GraphQLSchema
     from graphql.utilities import lexicographic_sort_schema
 
-    for how, derive in (("to_kwargs", lambda s: GraphQLSchema(**s.to_kwargs())), ("sorted", lexicographic_sort_schema)):
+    import copy
+
+    for how, derive in (("to_kwargs", lambda s: GraphQLSchema(**s.to_kwargs())), ("sorted", lexicographic_sort_schema), ("deepcopy", copy.deepcopy)):
         res.evaluations += 1
         res.executions += 1
         try:
